@@ -11,6 +11,8 @@ CONSTANTS
   ChainNs = {2}
   Algo = "arange_int"
   ExtFilter = TRUE
+  FillBy = "reindex"
+  LenBy = "sizes"
   RangeFrom = "index"
 INVARIANT ImplCrop
 INVARIANT LawCropContiguous
@@ -24,6 +26,7 @@ INVARIANT ImplExactlyWidth
 INVARIANT ImplPlacement
 INVARIANT LawOffs
 INVARIANT NeverOffLattice
+INVARIANT ImplKeepsSamples
 INVARIANT ImplChain
 INVARIANT LawChainExact
 INVARIANT LawChainKeepsOriginals
